@@ -205,3 +205,13 @@ def invalid_instance(name, version, idx):
     if name.startswith("verif."):
         return {"title": {"not": "a string"}, "level": "x", "leafval": "y", "flag": [1, 2]}
     return {"columns": 5, "givenName": {"a": 1}, "name": {"a": []}, "@id": 5, "diameter": "x", "instrumentName": []}
+
+
+# parent / child schemas (name -> list of (name, version) related by inheritance)
+RELATED = {
+    "verif.base": [("verif.mid", (0, 1, 1)), ("verif.leaf", (0, 1, 0)), ("verif.leaf", (1, 0, 0))],
+    "verif.mid": [("verif.base", (0, 2, 0)), ("verif.leaf", (0, 1, 0))],
+    "verif.leaf": [("verif.base", (0, 2, 0)), ("verif.base", (1, 0, 0)), ("verif.mid", (0, 1, 1))],
+    "core.dir": [("core.bib", (0, 1, 0))],
+    "core.bib": [("core.dir", (0, 1, 0))],
+}
